@@ -181,6 +181,10 @@ func (c *config) syncStrictHost() {
 			host.RemovePath(old)
 		}
 		host.AddPath(back, "/", hatypes.MatchBegin).StrictHost = true
+		if back != nil {
+			// the backend has a new path, which can change the need of path IDs
+			c.backends.PathsChanged(back)
+		}
 	}
 }
 
@@ -479,13 +483,23 @@ func (c *config) hostAliases() map[string]hatypes.HostAliasConfig {
 // link to the backend maps.
 func (c *config) WriteBackendMaps() error {
 	// TODO rename HostMap types to HAProxyMap
-	if !c.backends.Changed() {
+	if !c.backends.Changed() && len(c.backends.ItemsPathsChanged()) == 0 {
 		// backends are clean, maps are updated
 		return nil
 	}
 	mapBuilder := hatypes.CreateMaps(c.global.MatchOrder)
 	hostAliases := c.hostAliases()
-	for _, backend := range c.backends.ItemsAdd() {
+	backends := make(map[string]*hatypes.Backend, len(c.backends.ItemsAdd()))
+	for id, backend := range c.backends.ItemsAdd() {
+		backends[id] = backend
+	}
+	for id := range c.backends.ItemsPathsChanged() {
+		// the instance that stays, Shrink() might have discarded the flagged one
+		if backend := c.backends.Items()[id]; backend != nil {
+			backends[id] = backend
+		}
+	}
+	for _, backend := range backends {
 		if backend.NeedACL() {
 			mapsPrefix := c.options.mapsDir + "/_back_" + backend.ID
 			pathsMap := mapBuilder.AddMap(mapsPrefix + "_idpath.map")
